@@ -430,8 +430,11 @@ pub(crate) fn add_int_permutation<W, R, T>(
                 i /= n-j;
             }
             ret.reverse();
+            // quadratic in k: bounded by the search limit like every other native scan
+            let mut search = rt.limits.search_iter();
             for t0 in (1..k).rev(){
                 for t1 in (0..t0).rev(){
+                    search.next().unwrap()?;
                     if ret[t1] <= ret[t0]{
                         ret[t0] += 1;
                     }
